@@ -1577,29 +1577,47 @@ impl<'arena> PrettyFormatter<'arena> {
         }
     }
 
+    /// A comment emitted directly after a constructor name must not touch it:
+    /// `-` is an identifier character, so `+C-- note` would lex as one name.
+    fn constructor_argument_gap(&self, argument: EntityId) -> RcDoc<'arena> {
+        if self.arena.trivia.leading_comments(argument).is_empty() {
+            RcDoc::nil()
+        } else {
+            RcDoc::text(" ")
+        }
+    }
+
     fn term_constructor_argument(&self, body: TermId) -> RcDoc<'arena> {
         match &self.arena.terms[&body] {
-            | Term::Paren(Paren(terms)) => self.with_leading_comments(
-                body.into(),
-                self.delimited(
-                    Some(body.into()),
-                    "(",
-                    terms.iter().map(|term| self.annotated_term_fragment(*term)).collect(),
-                    ",",
-                    ")",
-                ),
-            ),
+            | Term::Paren(Paren(terms)) => {
+                self.constructor_argument_gap(body.into()).append(self.with_leading_comments(
+                    body.into(),
+                    self.delimited(
+                        Some(body.into()),
+                        "(",
+                        terms.iter().map(|term| self.annotated_term_fragment(*term)).collect(),
+                        ",",
+                        ")",
+                    ),
+                ))
+            }
             | _ => self.delimited(None, "(", vec![self.annotated_term_fragment(body)], ",", ")"),
         }
     }
 
     fn pattern_constructor_argument(&self, body: PatId) -> RcDoc<'arena> {
         match &self.arena.pats[&body] {
-            | Pattern::Alias(_) | Pattern::Manifest(_) => self.annotated_pattern(body),
+            | Pattern::Alias(_) | Pattern::Manifest(_) => {
+                self.constructor_argument_gap(body.into()).append(self.annotated_pattern(body))
+            }
             | Pattern::Paren(Paren(patterns)) => match patterns.as_slice() {
-                | [inner] if self.should_elide_parentheses(body.into(), (*inner).into()) => self
-                    .with_leading_comments(body.into(), self.pattern_constructor_argument(*inner)),
-                | _ => self.with_leading_comments(
+                | [inner] if self.should_elide_parentheses(body.into(), (*inner).into()) => {
+                    self.constructor_argument_gap(body.into()).append(self.with_leading_comments(
+                        body.into(),
+                        self.pattern_constructor_argument(*inner),
+                    ))
+                }
+                | _ => self.constructor_argument_gap(body.into()).append(self.with_leading_comments(
                     body.into(),
                     self.delimited(
                         Some(body.into()),
@@ -1616,7 +1634,7 @@ impl<'arena> PrettyFormatter<'arena> {
                         ",",
                         ")",
                     ),
-                ),
+                )),
             },
             | _ => self.delimited(
                 None,
